@@ -22,11 +22,13 @@ Definition mk_samples (n : nat) (cols : list (list (option Q))) (sel : list bool
   map (fun i => {| s_active := match sel with [] => true | _ => nth i sel true end;
                    s_z := map (fun c => nth i c None) cols |}) (seq 0 n).
 
+Definition qmin (a b : Q) : Q := if qltb b a then b else a.
 Definition fid (n : nat) : fmat := delta.
 
 (* ---- kind 0: PCA / MAF.  (0 mode nvar zcols sel eigval eigvec sq sigma Z2Fimpl F2Zimpl extra) *)
 Definition run_pca (mode : Z) (nv : nat) (cols : list (list (option Q))) (sel : list bool)
-           (eigval : list Q) (E : mat) (sq sigma : list Q) (Zi Fi : mat) (extra : list (list (option Q))) : sx :=
+           (eigval : list Q) (E : mat) (sq sigma : list Q) (Zi Fi : mat) (extra : list (list (option Q)))
+           (coords : list (list Q)) (hmin hmax : Q) : sx :=
   let n := match cols with c :: _ => length c | [] => O end in
   let db := mk_samples n cols sel in
   let rows := iso_rows nv db in
@@ -61,7 +63,28 @@ Definition run_pca (mode : Z) (nv : nat) (cols : list (list (option Q))) (sel : 
       match F2Zo with Some m => ofMat m | None => L [] end;
       ofList ofORow factors; ofList ofORow back; ofVec resid; ofList ofORow xback;
       (* is the exact covariance matrix invertible, and its inf-norm condition number *)
-      match c0inv with Some Ci => L [I 1; ofQ (ninf c0 * ninf Ci)] | None => L [I 0; ofQ 0] end ].
+      match c0inv with Some Ci => L [I 1; ofQ (ninf c0 * ninf Ci)] | None => L [I 0; ofQ 0] end;
+      (* MAF: the lag-h matrix of _variogramh, the smallest relative margin of the distance tests, and the residuals of
+         Gh.V = C0.V.L and V^T.Gh.V = L on the harvested generalised eigen-pairs *)
+      if Z.eqb mode 0 then L [] else
+        let pts := map (fun i => (isotopic nv (nth i db {| s_active := false; s_z := [] |}),
+                                  map (fun c => nth i c 0) coords,
+                                  values (s_z (nth i db {| s_active := false; s_z := [] |})))) (seq 0 n) in
+        let D := pair_diffs hmin hmax nv pts in
+        let gh := variogramh nv D in
+        let d2s := flat_map (fun i => flat_map (fun j =>
+                      match nth i pts (false, [], []), nth j pts (false, [], []) with
+                      | (true, x, _), (true, x', _) => if Nat.ltb j i then [dist2 x x'] else []
+                      | _, _ => []
+                      end) (seq 0 n)) (seq 0 n) in
+        (* exact ties (d^2 = h^2 on dyadic coordinates) are decided identically in binary64; only near-ties are uncertain *)
+        let nz := fun d => if qeqb d 0 then 1 else Qabs d in
+        let margin := fold_left (fun m d2 => qmin m (qmin (nz (d2 - hmin * hmin)) (nz (d2 - hmax * hmax)))) d2s 1 in
+        let gV := fmulr nv (get gh) gE in
+        let cVL := fmulr nv (get c0) (fun i a => gE i a * lam a) in
+        L [ ofMat gh; ofNat (length D); ofQ margin;
+            ofQ (mat_resid nv nv gV cVL);
+            ofQ (mat_resid nv nv (fmulr nv (ftr gE) gV) (fun i j => delta i j * lam i)) ] ].
 
 (* ---- kind 1: hermitePolynomials.  (1 y r n sq) -> (code recurrence with the harvested roots, unnormalised h_k r^k, k!) *)
 Definition sqfun (sq : list Q) : nat -> Q := fun k => vget sq k.
@@ -81,7 +104,6 @@ Definition asInterval (s : sx) : option interval :=
   | _ => None
   end.
 (* smallest distance between z and the forward values met by the scan and the bisection (decision margins) *)
-Definition qmin (a b : Q) : Q := if qltb b a then b else a.
 Fixpoint scan_up_m (phi : Q -> Q) (z : Q) (cnt : nat) (y1 m : Q) : Q :=
   match cnt with
   | O => m
@@ -209,20 +231,45 @@ Definition run_emp (ZD YD : list Q) (yq zq : list (option Q)) : sx :=
                        end) zq ].
 
 (* ---- kind 5: Rotation.  (5 n flag rotMat rotInv vecs) *)
-Definition run_rot (n : nat) (flag : bool) (M Mi : mat) (vecs : list (list Q)) : sx :=
+Definition run_rot (n : nat) (flag : bool) (M Mi : mat) (vecs : list (list Q)) (cs : list (list Q)) : sx :=
   L [ ofList (fun v => let d := rotate_direct n flag M v in L [ofVec d; ofVec (rotate_inverse n flag Mi d)]) vecs;
+      (* the matrix of setAngles from the (cos, sin) pairs *)
+      match cs with
+      | [[c; s]] => ofMat (rot2d c s)
+      | [[c0; s0]; [c1; s1]; [c2; s2]] => ofMat (rot3d c0 s0 c1 s1 c2 s2)
+      | _ => L []
+      end;
       ofVec [ mat_resid n n (fmulr n (ftr (get M)) (get M)) delta;
               mat_resid n n (fmulr n (get M) (ftr (get M))) delta;
               mat_resid n n (get Mi) (ftr (get M)) ] ].
 
+(* ---- kind 8: AnamHermite::fitFromArray.  (8 nbpoly data ys Gc g sq) -> class values, cumulated frequencies, coefficients, mean *)
+Fixpoint abel_abs (zs a : list Q) (prev : Q) : Q :=
+  match zs, a with z :: zs', x :: a' => Qabs z * (Qabs x + Qabs prev) + abel_abs zs' a' x | _, _ => 0 end.
+Definition run_fit (nb : nat) (data : list (option Q)) (ys Gc g sq : list Q) : sx :=
+  let l := defined_values data in
+  let groups := rle (q_sort l) in
+  let vals := map fst groups in
+  let n := natQ (length l) in
+  let zs := fit_zs vals in
+  let Fs := cum_freqs (map snd groups) 0 n in
+  let psi := fit_psi (sqfun sq) nb zs ys Gc g in
+  let H := map (fun y => herm_gen (sqfun sq) (sqfun sq) y nb) ys in
+  let scales := abel_abs zs Gc 0 ::
+                map (fun k => abel_abs zs (map (fun p => nth (k - 1) (fst p) 0 * snd p) (combine H g)) 0 / sqfun sq k) (seq 1 (nb - 1)) in
+  let mean := lsumr l / n in
+  let var := lsumr (map (fun x => (x - mean) * (x - mean)) l) / n in
+  L [ ofVec zs; ofVec Fs; ofVeca psi; ofVeca scales; ofQ mean; ofQ var; ofNat (length vals) ].
+
 Definition run (c : sx) : sx :=
   match c with
-  | L [I 0%Z; I mode; nv; cols; sel; eigval; E; sq; sigma; Zi; Fi; extra] =>
+  | L [I 0%Z; I mode; nv; cols; sel; eigval; E; sq; sigma; Zi; Fi; extra; coords; hmin; hmax] =>
       match asNat nv, asListOf asOVec cols, asListOf asB sel, asVec eigval, asMat E, asVec sq, asVec sigma,
-            asMat Zi, asMat Fi, asListOf asOVec extra with
-      | Some nv', Some cols', Some sel', Some eigval', Some E', Some sq', Some sigma', Some Zi', Some Fi', Some extra' =>
-          run_pca mode nv' cols' sel' eigval' E' sq' sigma' Zi' Fi' extra'
-      | _, _, _, _, _, _, _, _, _, _ => sx_error 1
+            asMat Zi, asMat Fi, asListOf asOVec extra, asMat coords, asQ hmin, asQ hmax with
+      | Some nv', Some cols', Some sel', Some eigval', Some E', Some sq', Some sigma', Some Zi', Some Fi', Some extra',
+        Some coords', Some hmin', Some hmax' =>
+          run_pca mode nv' cols' sel' eigval' E' sq' sigma' Zi' Fi' extra' coords' hmin' hmax'
+      | _, _, _, _, _, _, _, _, _, _, _, _, _ => sx_error 1
       end
   | L [I 1%Z; y; r; n; sq] =>
       match asQ y, asQ r, asNat n, asVec sq with
@@ -250,10 +297,15 @@ Definition run (c : sx) : sx :=
       | Some zd', Some yd', Some yq', Some zq' => run_emp zd' yd' yq' zq'
       | _, _, _, _ => sx_error 1
       end
-  | L [I 5%Z; n; fl; M; Mi; vecs] =>
-      match asNat n, asB fl, asMat M, asMat Mi, asMat vecs with
-      | Some n', Some fl', Some M', Some Mi', Some vecs' => run_rot n' fl' M' Mi' vecs'
-      | _, _, _, _, _ => sx_error 1
+  | L [I 5%Z; n; fl; M; Mi; vecs; cs] =>
+      match asNat n, asB fl, asMat M, asMat Mi, asMat vecs, asMat cs with
+      | Some n', Some fl', Some M', Some Mi', Some vecs', Some cs' => run_rot n' fl' M' Mi' vecs' cs'
+      | _, _, _, _, _, _ => sx_error 1
+      end
+  | L [I 8%Z; nb; data; ys; Gc; g; sq] =>
+      match asNat nb, asOVec data, asVec ys, asVec Gc, asVec g, asVec sq with
+      | Some nb', Some data', Some ys', Some Gc', Some g', Some sq' => run_fit nb' data' ys' Gc' g' sq'
+      | _, _, _, _, _, _ => sx_error 1
       end
   | L [I 6%Z; y; psi; sq] =>
       match asQ y, asVec psi, asVec sq with
